@@ -1,5 +1,7 @@
-CONSTANTS MaxOps = 4
+CONSTANTS MaxOps = 3
   Lens = {1, 2, 3, 4}
+  FullDepth = 3
+  LateOps <- DefaultLateOps
 INIT Init
 NEXT Next
 INVARIANTS LengthIsSerialisedSize Emit
